@@ -77,7 +77,12 @@ def copy_ragged(case, d):
     dtype = case.get('dtype')
     tdt = np.dtype(dtype) if dtype else dt
     ref = [np.asarray(v, dtype=dt).astype(tdt) for v in vals]
-    res = attempt(lambda: (src.copy(cp, dtype=dtype, accessmode='r+'), None)[1])
+    kwc = {}
+    if case.get('onto'):
+        # the destination already holds a ragged array WITH metadata: the copy replaces all of it
+        darr.asraggedarray(cp, [[9.0], [8.0, 7.0]], metadata={'old': 'stale'})
+        kwc['overwrite'] = True
+    res = attempt(lambda: (src.copy(cp, dtype=dtype, accessmode='r+', **kwc), None)[1])
     out = dict(res=res[:2], ref=[dict(shape=list(x.shape), data=np.ascontiguousarray(x).tobytes().hex()) for x in ref],
                tdtype=dtype_info(tdt))
     if res[0] != 'ok':
@@ -115,6 +120,10 @@ def archive(case, d):
     if case.get('existing'):
         open(target, 'wb').write(b'previous archive')
         pre = b'previous archive'
+    if case.get('userfiles'):
+        for nm, txt in (('.hidden', 'h'), ('notes.txt~', 'n'), ('._x', 'x')):
+            with a.datadir.open_file(nm, 'w') as fh:
+                fh.write(txt)
     before = snapshot(base)
     res = attempt(lambda: str(a.archive(filepath=dest, compressiontype=case['ctype'], overwrite=case['overwrite'])))
     out = dict(res=res[:2], array_unchanged=snapshot(base) == before, target_exists=os.path.exists(target))
@@ -134,3 +143,6 @@ def archive(case, d):
             return len(b) == len(a) and all(np.array_equal(b[i], a[i]) for i in range(len(a))) and dict(b.metadata) == dict(a.metadata)
         out['opens_equal'] = attempt(same)[:2]
     return out
+
+
+from impl_C01 import big      # a copy of an array beyond the 80 MiB default chunk (direct oracle)
